@@ -342,7 +342,7 @@ func (t *callTracer) CaptureExit(output []byte, gasUsed uint64, err error) {
 	if t.callstack[size-1].joinPoint != types.JoinPointRunType_Unknown {
 		// if currently the call is initiated by aspect, we need to append it
 		// to the calls in aspect frame not current callstack
-		last := len(t.callstack[size-1].JoinPoints)
+		last := len(t.callstack[size-1].JoinPoints) - 1
 		t.callstack[size-1].JoinPoints[last].Calls = append(t.callstack[size-1].JoinPoints[last].Calls, call)
 	} else {
 		// append to callstack otherwise
